@@ -21,7 +21,7 @@ if [ "$SEED_IN_REPO" = 1 ]; then
   ./check $PID "$@" > $OUT/check.log 2>&1; echo "check_rc=$? (patch applied to /repo)" | tee -a $LOG
   git -C /repo checkout -- .
 else
-  VP_REPO=$WT ./check $PID "$@" > $OUT/check.log 2>&1; echo "check_rc=$? (VP_REPO=patched worktree)" | tee -a $LOG
+  VP_REPO=$WT ./check $PID --only "${SEED_ONLY:-*}" "$@" > $OUT/check.log 2>&1; echo "check_rc=$? (VP_REPO=patched worktree)" | tee -a $LOG
   git -C $WT checkout -q -- pixman
 fi
 grep -E "VIOLATION|KNOWN-FINDING|BROKEN|^\[" $OUT/check.log | cut -c1-220 | head -8 | tee -a $LOG
